@@ -194,8 +194,26 @@ def summarise(results: list[dict[str, Any]]) -> dict[str, Any]:
     }
 
 
+def neutral_corpus(pid: str) -> list[dict[str, Any]]:
+    """The independently written behaviour-preserving patches under
+    /verif/neutral, as 'neutral' overlays for property pid."""
+    out = []
+    base = os.path.join(VERIF, 'neutral')
+    for d in sorted(os.listdir(base)) if os.path.isdir(base) else []:
+        p = os.path.join(base, d, 'patch.diff')
+        if os.path.exists(p):
+            out.append({'id': f'neutral/{d}', 'property': pid, 'patch': p,
+                        'expect': '', 'kind': 'neutral'})
+    return out
+
+
 def attach(pid: str, rep: Report, root: str, jobs: int) -> None:
     res = run_for([pid], root, jobs)
+    extra = neutral_corpus(pid)
+    if extra:
+        with ProcessPoolExecutor(
+                max_workers=max(1, min(jobs, len(extra)))) as ex:
+            res += list(ex.map(run_one, [(root, m) for m in extra]))
     s = summarise(res)
     rep.extra['selftest'] = s
     if s['mutants_survived']:
